@@ -32,11 +32,25 @@ pub fn fault_of(text: &str) -> Option<LexFault> {
 /// emitted a second time (newline runs are not).  Returns None if the text contains a backtick outside
 /// strings/comments (not directive-free).
 pub fn k1_model(text: &str) -> Option<String> {
+    k1_model_mode(text, false)
+}
+
+/// `strip`: model of strip_comments = true — comments are replaced by a blank (block) or a newline (line
+/// comment that ends in one), except inside the trailing trivia of a literal, which is copied verbatim
+/// before its blank runs and (replaced) comments are emitted once more.
+pub fn k1_model_mode(text: &str, strip: bool) -> Option<String> {
     let (toks, fault) = lexer::lex_mode(text, true);
     if fault.is_some() {
         return None;
     }
     let b = text.as_bytes();
+    let repl = |c: &str| -> &'static str {
+        if c.ends_with('\n') {
+            "\n"
+        } else {
+            " "
+        }
+    };
     let mut out = String::with_capacity(text.len() + 16);
     let mut i = 0;
     while i < toks.len() {
@@ -44,8 +58,25 @@ pub fn k1_model(text: &str) -> Option<String> {
         if t.k == K::Tick || (t.k == K::Punct && &text[t.s..t.e] == "`") {
             return None;
         }
-        out.push_str(&text[t.s..t.e]);
         i += 1;
+        if strip && (t.k == K::LineComment || t.k == K::BlockComment) {
+            // a line comment node includes its newline
+            let mut e = t.e;
+            if t.k == K::LineComment && e < b.len() && b[e] == b'\n' {
+                e += 1;
+            }
+            out.push_str(repl(&text[t.s..e]));
+            // skip the newline that belonged to the comment
+            if e > t.e {
+                // the following Ws token starts with that newline: emit the rest of it
+                if i < toks.len() && toks[i].k == K::Ws && toks[i].s == t.e {
+                    out.push_str(&text[e..toks[i].e]);
+                    i += 1;
+                }
+            }
+            continue;
+        }
+        out.push_str(&text[t.s..t.e]);
         if t.k == K::Str || t.k == K::EscId {
             // trailing trivia exactly as the implementation's white_space() splits it:
             // space1 -> Space (emitted again), multispace1 -> Newline (not again), comments (again)
@@ -73,11 +104,11 @@ pub fn k1_model(text: &str) -> Option<String> {
                     if p < b.len() {
                         p += 1;
                     }
-                    again.push_str(&text[q..p]);
+                    again.push_str(if strip { repl(&text[q..p]) } else { &text[q..p] });
                 } else if text[p..].starts_with("/*") {
                     let q = p;
                     p = text[p + 2..].find("*/").map(|x| p + 2 + x + 2).unwrap_or(b.len());
-                    again.push_str(&text[q..p]);
+                    again.push_str(if strip { repl(&text[q..p]) } else { &text[q..p] });
                 } else {
                     break;
                 }
